@@ -20,7 +20,9 @@ TRUSTED = [
 
 def _is(m, base):
     """an instance of `base` that computes base's forward (the class itself or a subclass that does not override forward)"""
-    return isinstance(m, base) and type(m).forward is base.forward
+    # the layer itself: exactly the class (a subclass may override forward or anything forward goes through), no forward on the
+    # instance, no forward hooks
+    return type(m) is base and "forward" not in vars(m) and not m._forward_hooks and not m._forward_pre_hooks
 
 
 def mkind(m):
@@ -157,8 +159,8 @@ def catalogue(ck):
     add("container-own-forward", lambda: OrChain(D(4, 4), D(4, 4)))
     add("container-plain-subclass", lambda: PlainSub(D(4, 6), D(6, 4), G(2)))
     add("container-modulelist", lambda: torch.nn.ModuleList([D(4, 6), D(6, 4)]))
-    # modules that are instances of a supported class but compute something else (own forward) are foreign; subclasses that keep the
-    # forward are the layer itself
+    # modules that are instances of a supported class but not the class itself are foreign (a subclass may compute something else
+    # through any overridden method), also a plain subclass: a loud refusal
     from torchlogix.layers import LogicDense as LD_, OrPooling as OP_, GroupSum as GS_
 
     class NegatedDense(LD_):
@@ -217,7 +219,8 @@ def run(ck: Check):
                 continue
             mods = list(model)
             kinds = [mkind(m) for m in mods]
-            if type(model).forward is not torch.nn.Sequential.forward:
+            if (type(model).forward is not torch.nn.Sequential.forward or "forward" in vars(model) or model._forward_hooks
+                    or model._forward_pre_hooks):
                 # the container itself is not a plain chain (a Sequential subclass overriding forward, a ModuleList): foreign
                 kinds = [f'(MForeign "container:{type(model).__name__}")'] + kinds
             W = rng.choice([8, 16, 32, 64])
@@ -358,6 +361,107 @@ def run(ck: Check):
                     ck.disagree("compile() on an object whose container changed since it was parsed computes the old structure (class count / layers of the earlier parse)",
                                 dict(case, row=rws[j]), expected=exp[j], observed=got[j] if j < len(got) else None,
                                 signature={"what": "stale-structure", "kind": "wrong", "change": change})
+    # a handle that holds a compiled library keeps computing THAT library's model whatever is done to the object afterwards short of
+    # a successful compile: generating the C text of a changed container (get_c_code() is the documented export), or a compile()
+    # that is refused, must not leave the handle describing one model (class count, sizes) while it calls the library of another.
+    # (only changes that make the described output LARGER are run in this process: the other direction writes past the buffer)
+    for change, act in (("other-k-larger", "get_c_code"), ("other-k-refused", "compile"), ("unsupported-layer-appended", "compile"),
+                        ("other-k-larger", "get_c_code-then-restore")):
+        torch.manual_seed(ck.seed + 10)
+        model = nets.make_dense(rng, 5, [8, 12], k=3)
+        case = {"kind": "handle-after-failed-or-partial-regeneration", "change": change, "action": act}
+        ck.case(case, nontrivial=True, kind="stale-handle")
+        rws = nets.all_rows(5)
+        try:
+            net = compiled.build(model, 8)
+            compiled.compile_net(net)
+            before = [[int(v) for v in r] for r in compiled.forward(net, rws)]
+        except Exception as e:
+            ck.disagree("a supported container was refused", case, observed=repr(e)[:200], signature={"what": "stale-handle", "kind": "setup"})
+            continue
+        old_last = model[-1]
+        if change == "other-k-larger":
+            model[-1] = _GS(4, 1.0, device="cpu")
+        elif change == "other-k-refused":
+            model[-1] = _GS(5, 1.0, device="cpu")
+        else:
+            model.append(torch.nn.ReLU())
+        try:
+            if act.startswith("get_c_code"):
+                net.get_c_code()
+            else:
+                compiled.compile_net(net)
+                continue                       # the change was compiled: covered by the protocol above
+        except Exception:
+            pass
+        if act.endswith("restore"):
+            model[-1] = old_last
+        try:
+            after = [[int(v) for v in r] for r in compiled.forward(net, rws)]
+        except Exception as e:
+            ck.count("stale_handle_refuses")
+            continue
+        ck.count("stale_handle_compared")
+        if after != before:
+            j = next(i for i in range(len(rws)) if i >= len(after) or after[i] != before[i])
+            ck.disagree("a compiled handle returns other results after get_c_code() / a refused compile() on the changed container: the tables "
+                        "of the new parse are used with the library of the old model", dict(case, row=rws[j]), expected=before[j],
+                        observed=after[j] if j < len(after) else None, signature={"what": "stale-handle", "kind": "wrong"})
+    # a layer that does not compute what its class says: a subclass overriding a method forward goes through (not only forward), a
+    # forward assigned on the instance, a forward hook that returns another output - on a layer or on the container.  Faithful or refused
+    from torchlogix.layers import LogicDense as _LD14, LogicConv2d as _LC14
+    class _NegPy(_LD14):
+        def forward_python(self, x):
+            return 1.0 - super().forward_python(x)
+    class _NegLevel(_LC14):
+        def _raw_level_weights(self, level):
+            w = super()._raw_level_weights(level)
+            return w.flip(-1)
+    def _mk(kind):
+        torch.manual_seed(ck.seed + 14)
+        if kind == "subclass-forward_python":
+            l = _NegPy(5, 8, device="cpu", weight_init="random")
+            return torch.nn.Sequential(l, _GS(2, 1.0, device="cpu")), (5,)
+        if kind == "subclass-level-weights":
+            l = _NegLevel(in_dim=(3, 3), device="cpu", channels=1, num_kernels=2, tree_depth=1, receptive_field_size=2, weight_init="random")
+            return torch.nn.Sequential(l, torch.nn.Flatten(), _GS(2, 1.0, device="cpu")), (1, 3, 3)
+        l = _LD14(5, 8, device="cpu", weight_init="random")
+        m = torch.nn.Sequential(l, _GS(2, 1.0, device="cpu"))
+        if kind == "instance-forward":
+            orig = l.forward
+            l.forward = lambda x: 1.0 - orig(x)
+        elif kind == "layer-hook":
+            l.register_forward_hook(lambda mod, inp, out: 1.0 - out)
+        elif kind == "container-hook":
+            m.register_forward_hook(lambda mod, inp, out: out.flip(-1))
+        elif kind == "container-instance-forward":
+            chain = m.forward
+            m.forward = lambda x: chain(1.0 - x)
+        elif kind == "layer-pre-hook":
+            l.register_forward_pre_hook(lambda mod, inp: (1.0 - inp[0],))
+        return m, (5,)
+    for kind in ("subclass-forward_python", "subclass-level-weights", "instance-forward", "layer-hook", "layer-pre-hook", "container-hook",
+                 "container-instance-forward"):
+        case = {"kind": "modified-layer", "how": kind}
+        ck.case(case, nontrivial=True, kind="modified-layer")
+        model, shp = _mk(kind)
+        try:
+            net = compiled.build(model, 8)
+            compiled.compile_net(net)
+        except Exception:
+            ck.count("modified_layer_refused")
+            continue
+        n_in = int(np.prod(shp))
+        rws, _ = nets.input_rows(rng, n_in, 9)
+        x = torch.tensor(rws, dtype=torch.float32).reshape(len(rws), *shp)
+        model.eval()
+        with torch.no_grad():
+            exp = [[int(round(v)) for v in r] for r in model(x).reshape(len(rws), -1).tolist()]
+        got = [[int(v) for v in np.array(r).reshape(-1)] for r in compiled.forward(net, np.array(rws, dtype=bool).reshape(len(rws), *shp).tolist())]
+        if got != exp:
+            ck.disagree("a layer / container whose function was changed (subclass overriding a method forward goes through, forward replaced on the "
+                        "instance, forward hook) is compiled as the plain layer", dict(case, differing_rows=sum(1 for a, b in zip(got, exp) if a != b), rows=len(exp)),
+                        signature={"what": "modified-layer", "how": kind})
     # decision model in the kernel
     txt = ("From Coq Require Import String List Arith. Import ListNotations.\nFrom TLX Require Import Model.Parse.\nLocal Open Scope string_scope.\n"
            "Eval vm_compute in [" + ";\n ".join(
